@@ -13,6 +13,8 @@
 //! cfg    = [max_size, method (0 Fast 1 Verified 2 Clean 3 Custom), custom sql index, lifo]
 //! labels = [0] get | [1,c] return | [2,c] take | [3,n] resize | [4] close | [5,bits,n] retain
 //!        | [6,c,api,q,oid..] prepare | [7,c,0,q,oid..] two concurrent prepares of one key
+//!        | [16,c,w,q,oid..] prepare through a Transaction wrapper (w = 3 transaction, 4 nested transaction,
+//!          5 savepoint, 6 build_transaction().start()), committed afterwards
 //!        | [8,c] statement_cache.clear | [9,c,0,q,oid..] statement_cache.remove
 //!        | [10] statement_caches.clear | [11,0,0,q,oid..] statement_caches.remove
 //!        | [12,c,f] next Query on c fails (1 ErrorResponse, 2 hang up) | [13,c,f] next Parse on c
@@ -45,7 +47,8 @@ type Object = deadpool_postgres::Client;
 
 /// the text documented for `RecyclingMethod::Clean`
 const DISCARD_SQL: &str = "CLOSE ALL; SET SESSION AUTHORIZATION DEFAULT; RESET ALL; UNLISTEN *; SELECT pg_advisory_unlock_all(); DISCARD TEMP; DISCARD SEQUENCES;";
-const CUSTOM_SQL: [&str; 2] = ["SELECT 1", "SET search_path TO public; SELECT 2"];
+// the third custom text is empty: still one round trip (an empty query), not "no check"
+const CUSTOM_SQL: [&str; 3] = ["SELECT 1", "SET search_path TO public; SELECT 2", ""];
 const QUERIES: [&str; 4] = ["SELECT 1", "SELECT $1", "SELECT $1, $2", "SELECT $1::TEXT"];
 const OIDS: [i64; 4] = [23, 25, 20, 16];
 
@@ -58,6 +61,22 @@ fn sql_id(q: &str) -> i64 {
     }
     if let Some(i) = CUSTOM_SQL.iter().position(|c| *c == q) {
         return 10 + i as i64;
+    }
+    // what the transaction wrappers send
+    if q == "BEGIN" {
+        return 20;
+    }
+    if q == "COMMIT" {
+        return 21;
+    }
+    if q.starts_with("SAVEPOINT ") {
+        return 22;
+    }
+    if q.starts_with("RELEASE ") {
+        return 23;
+    }
+    if q.starts_with("START TRANSACTION") {
+        return 24;
     }
     99
 }
@@ -384,6 +403,22 @@ impl Case {
         self.sh.lock().unwrap().anomalies.push(code);
     }
 
+    /// no scripted fault is pending on the connection and it is open (the wrapper paths are only
+    /// exercised in that situation)
+    fn via_ready(&self, c: usize) -> bool {
+        let w = self.sh.lock().unwrap();
+        let ok = c < w.conns.len() && w.conns[c].armq == 0 && w.conns[c].armp == 0;
+        drop(w);
+        ok && self.wrapper(c).map(|cw| !cw.is_closed()).unwrap_or(false)
+    }
+
+    fn wrapper_mut(&mut self, c: usize) -> Option<&mut ClientWrapper> {
+        if let Some(o) = self.held.get_mut(&c) {
+            return Some(&mut **o);
+        }
+        self.taken.get_mut(&c)
+    }
+
     fn wrapper(&self, c: usize) -> Option<&ClientWrapper> {
         if let Some(o) = self.held.get(&c) {
             return Some(&**o);
@@ -408,6 +443,7 @@ impl Case {
         match l[0] {
             1 | 2 => self.held.contains_key(&c),
             6 | 7 | 8 | 9 => self.held.contains_key(&c) || self.taken.contains_key(&c),
+            16 => (self.held.contains_key(&c) || self.taken.contains_key(&c)) && (3..=6).contains(&l[2]) && self.via_ready(c),
             12 | 13 | 15 => c < self.sh.lock().unwrap().conns.len(),
             0 | 3 | 4 | 5 | 10 | 11 | 14 => true,
             _ => false,
@@ -503,6 +539,74 @@ impl Case {
                     Ok(s) => {
                         let (a, b) = stmt_identity(&s);
                         // the parameter types of the statement are the ones asked for
+                        let got: Vec<i64> = s.params().iter().map(|t| t.oid() as i64).collect();
+                        if got != l[4..] {
+                            self.anomaly(908);
+                        }
+                        r = [3, a, b];
+                        self.stmts.push(s);
+                    }
+                    Err(_) => r = [4, 0, 0],
+                }
+            }
+            16 => {
+                let q = QUERIES[l[3] as usize % QUERIES.len()];
+                let tys = types_of(&l[4..]);
+                let w = l[2];
+                let mut failed = false;
+                let res: Result<Statement, tokio_postgres::Error> = {
+                    let cw = self.wrapper_mut(c).unwrap();
+                    match w {
+                        3 => match cw.transaction().await {
+                            Ok(tx) => {
+                                let r = tx.prepare_typed_cached(q, &tys).await;
+                                failed |= tx.commit().await.is_err();
+                                r
+                            }
+                            Err(e) => Err(e),
+                        },
+                        6 => match cw.build_transaction().start().await {
+                            Ok(tx) => {
+                                let r = tx.prepare_typed_cached(q, &tys).await;
+                                failed |= tx.commit().await.is_err();
+                                r
+                            }
+                            Err(e) => Err(e),
+                        },
+                        _ => match cw.transaction().await {
+                            Ok(mut tx) => {
+                                let r = if w == 4 {
+                                    match tx.transaction().await {
+                                        Ok(sp) => {
+                                            let r = sp.prepare_typed_cached(q, &tys).await;
+                                            failed |= sp.commit().await.is_err();
+                                            r
+                                        }
+                                        Err(e) => Err(e),
+                                    }
+                                } else {
+                                    match tx.savepoint("dpv").await {
+                                        Ok(sp) => {
+                                            let r = sp.prepare_typed_cached(q, &tys).await;
+                                            failed |= sp.commit().await.is_err();
+                                            r
+                                        }
+                                        Err(e) => Err(e),
+                                    }
+                                };
+                                failed |= tx.commit().await.is_err();
+                                r
+                            }
+                            Err(e) => Err(e),
+                        },
+                    }
+                };
+                if failed {
+                    self.anomaly(909);
+                }
+                match res {
+                    Ok(s) => {
+                        let (a, b) = stmt_identity(&s);
                         let got: Vec<i64> = s.params().iter().map(|t| t.oid() as i64).collect();
                         if got != l[4..] {
                             self.anomaly(908);
@@ -640,7 +744,7 @@ enum Profile {
 }
 
 fn gen_cfg(rng: &mut Rng) -> Vec<i64> {
-    vec![1 + rng.below(4) as i64, rng.below(4) as i64, rng.below(2) as i64, rng.chance(30) as i64]
+    vec![1 + rng.below(4) as i64, rng.below(4) as i64, rng.below(3) as i64, rng.chance(30) as i64]
 }
 
 fn gen_key(rng: &mut Rng, used: &mut Vec<Vec<i64>>) -> Vec<i64> {
@@ -699,7 +803,13 @@ fn gen_label(rng: &mut Rng, cs: &Case, profile: Profile, used: &mut Vec<Vec<i64>
         6 => {
             let key = gen_key(rng, used);
             let api = if key.len() == 1 && rng.chance(50) { 1 } else if rng.chance(20) { 2 } else { 0 };
-            let mut v = vec![6, pick(rng, &users), api];
+            let c = pick(rng, &users);
+            // sometimes through one of the Transaction wrappers (only on a connection without a pending fault)
+            let mut v = if rng.chance(30) && cs.via_ready(c as usize) {
+                vec![16, c, 3 + rng.below(4) as i64]
+            } else {
+                vec![6, c, api]
+            };
             v.extend(key);
             v
         }
